@@ -104,7 +104,7 @@ def get_lossy_particle_number_probability(
             )
 
             probability += (
-                left_coefficient * np.conj(right_coefficient) * matrix_element
+                np.conj(left_coefficient) * right_coefficient * matrix_element
             )
 
     return np.real_if_close(probability)
